@@ -393,11 +393,15 @@ func latin1ToUTF8(b []byte) string {
 
 // applyDefect places the defect at the node; it changes content / structure / header forms and, where an
 // accepting decoder must see another value, the canonical value.
-func applyDefect(root *VNode, defect string, path []int) {
+func applyDefect(root *VNode, defect string, path []int, sf *StrForm) {
 	if defect == "none" || defect == "truncated" {
 		return
 	}
 	vn, parent := root.find(path)
+	if sf != nil && sf.Tag != 0 {
+		applyStringForm(vn, sf)
+		return
+	}
 	neg := len(vn.Content) > 0 && vn.Content[0]&0x80 != 0
 	switch defect {
 	case "nonMinimalLength", "leadingZeroLength", "indefiniteLength":
@@ -429,6 +433,11 @@ func applyDefect(root *VNode, defect string, path []int) {
 		_ = parent
 	case "explicitEmpty":
 		vn.Kids[0].Dropped = true
+	case "explicitEmptyPrimitive":
+		vn.Kids[0].Dropped = true
+		vn.Compound = false
+	case "explicitPrimitive":
+		vn.Compound = false
 	case "trailingInSequence":
 		// (a zero-length last element behind an absent OPTIONAL EXPLICIT field is "explicit tag has no child"
 		// for both decoders, so the extra element has content)
@@ -533,6 +542,54 @@ func applyDefect(root *VNode, defect string, path []int) {
 	}
 }
 
+// utf8Of writes code points as UTF-8 (RFC 3629), without the help of either asn1 package or of unicode/utf8.
+func utf8Of(cps []int) []byte {
+	var out []byte
+	for _, c := range cps {
+		switch {
+		case c < 0 || c > 0x10ffff || (c >= 0xd800 && c < 0xe000):
+			panic(fmt.Sprintf("the specification names the code point %#x", c))
+		case c < 0x80:
+			out = append(out, byte(c))
+		case c < 0x800:
+			out = append(out, 0xc0|byte(c>>6), 0x80|byte(c&0x3f))
+		case c < 0x10000:
+			out = append(out, 0xe0|byte(c>>12), 0x80|byte(c>>6&0x3f), 0x80|byte(c&0x3f))
+		default:
+			out = append(out, 0xf0|byte(c>>18), 0x80|byte(c>>12&0x3f), 0x80|byte(c>>6&0x3f), 0x80|byte(c&0x3f))
+		}
+	}
+	return out
+}
+
+// applyStringForm makes the leaf the string form of the specification (clause StringTable): the content octets
+// as stated, under the universal tag of the string type - unless the node has an IMPLICIT tag, which stays - and
+// the Go string an accepting decoder must yield.
+func applyStringForm(vn *VNode, sf *StrForm) {
+	if !(vn.N.K == "str" || vn.N.K == "any") {
+		panic("string form at a " + vn.N.K)
+	}
+	if !vn.N.tagged() {
+		vn.Class, vn.Tag = classUniversal, sf.Tag
+	}
+	vn.Content = make([]byte, len(sf.Oct))
+	for i, o := range sf.Oct {
+		vn.Content[i] = byte(o)
+	}
+	switch sf.Kind {
+	case "runes":
+		vn.Canon = cStr(string(utf8Of(sf.Seq)))
+	case "raw":
+		b := make([]byte, len(sf.Seq))
+		for i, o := range sf.Seq {
+			b[i] = byte(o)
+		}
+		vn.Canon = cStr(string(b))
+	default:
+		vn.Canon = "rejected" // no decoder accepts the form
+	}
+}
+
 // zeroCanon is the canonical value of an element that is not on the wire (top: the absent element itself,
 // which gets its default; the fields of an absent struct stay zero).
 func zeroCanon(n *Node, top bool) string {
@@ -605,6 +662,10 @@ func canonExpIn(vn, parent *VNode) string {
 		}
 		return cList(items)
 	case "explicit":
+		if vn.Kids[0].N.K == "raw" {
+			// ExplicitOpaque: the wrapper is not opened, the RawValue is the wrapper itself - whatever it holds
+			return cRaw(vn.Class, vn.Tag, vn.Compound, vn.Enc[vn.Hdr:], vn.Enc)
+		}
 		return canonExpIn(vn.Kids[0], vn)
 	case "raw":
 		return cRaw(vn.Class, vn.Tag, vn.Compound, vn.Content, vn.Enc)
